@@ -12,9 +12,12 @@ import (
 	"io/fs"
 	realos "os"
 	"path"
+	"runtime"
 	"runtime/debug"
 	"sort"
 	"strings"
+	"sync"
+	"sync/atomic"
 	"syscall"
 	"time"
 )
@@ -184,6 +187,49 @@ type World struct {
 }
 
 var W *World
+
+// The simulated operating system is used by one goroutine at a time. Code under test that spawns
+// goroutines of its own (a generator rendering its files concurrently) would otherwise race on the
+// world's maps: every entry point takes a process-wide lock, re-entrant per goroutine because the
+// entry points call each other. With a second simulated process (Yield hook set) the hand-off
+// between the two process goroutines already serialises everything, and a lock held across that
+// hand-off would deadlock, so it is not taken there.
+var (
+	bigMu    sync.Mutex
+	bigOwner atomic.Uint64
+	bigDepth int
+)
+
+func curGoid() uint64 {
+	var buf [40]byte
+	n := runtime.Stack(buf[:], false)
+	var id uint64
+	for i := len("goroutine "); i < n && buf[i] >= '0' && buf[i] <= '9'; i++ {
+		id = id*10 + uint64(buf[i]-'0')
+	}
+	return id
+}
+
+func guard() func() {
+	if W != nil && W.Yield != nil {
+		return func() {}
+	}
+	g := curGoid()
+	if bigOwner.Load() == g {
+		bigDepth++
+		return func() { bigDepth-- }
+	}
+	bigMu.Lock()
+	bigOwner.Store(g)
+	bigDepth = 1
+	return func() {
+		bigDepth--
+		if bigDepth == 0 {
+			bigOwner.Store(0)
+			bigMu.Unlock()
+		}
+	}
+}
 
 // exported process-level variables, re-pointed at every context switch
 var (
@@ -375,6 +421,7 @@ func (w *World) fail(ev *Event, op, p string, e error) error {
 // ---- the os API -----------------------------------------------------------------------------------
 
 func Getwd() (string, error) {
+	defer guard()()
 	ev, f := W.begin("getwd", "")
 	if f != nil {
 		e := errnoOf(f.Kind)
@@ -385,6 +432,7 @@ func Getwd() (string, error) {
 }
 
 func Chdir(dir string) error {
+	defer guard()()
 	ev, _ := W.begin("chdir", dir)
 	_, _, n, err := W.walk(dir, true, 0)
 	if err != nil {
@@ -421,6 +469,7 @@ func (fi fileInfo) IsDir() bool        { return fi.n.kind == kDir }
 func (fi fileInfo) Sys() any           { return nil }
 
 func stat(op, name string, follow bool) (FileInfo, error) {
+	defer guard()()
 	ev, f := W.begin(op, name)
 	if f != nil {
 		return nil, W.fail(ev, op, name, errnoOf(f.Kind))
@@ -439,6 +488,7 @@ func Stat(name string) (FileInfo, error)  { return stat("stat", name, true) }
 func Lstat(name string) (FileInfo, error) { return stat("lstat", name, false) }
 
 func Mkdir(name string, perm FileMode) error {
+	defer guard()()
 	ev, f := W.begin("mkdir", name)
 	if f != nil {
 		return W.fail(ev, "mkdir", name, errnoOf(f.Kind))
@@ -455,6 +505,7 @@ func Mkdir(name string, perm FileMode) error {
 }
 
 func MkdirAll(p string, perm FileMode) error {
+	defer guard()()
 	ev, f := W.begin("mkdirall", p)
 	if f != nil {
 		return W.fail(ev, "mkdir", p, errnoOf(f.Kind))
@@ -494,13 +545,16 @@ type File struct {
 
 func Open(name string) (*File, error) { return openFile("open", name, O_RDONLY, 0) }
 func Create(name string) (*File, error) {
+	defer guard()()
 	return openFile("create", name, O_RDWR|O_CREATE|O_TRUNC, 0o666)
 }
 func OpenFile(name string, flag int, perm FileMode) (*File, error) {
+	defer guard()()
 	return openFile("openfile", name, flag, perm)
 }
 
 func openFile(op, name string, flag int, perm FileMode) (*File, error) {
+	defer guard()()
 	ev, f := W.begin(op, name)
 	ev.Flag = flag
 	if f != nil {
@@ -535,6 +589,7 @@ func openFile(op, name string, flag int, perm FileMode) (*File, error) {
 func (f *File) Name() string { return f.name }
 
 func (f *File) Read(p []byte) (int, error) {
+	defer guard()()
 	if f.stream {
 		return 0, io.EOF
 	}
@@ -559,6 +614,7 @@ func (f *File) Read(p []byte) (int, error) {
 }
 
 func (f *File) Write(p []byte) (int, error) {
+	defer guard()()
 	if f.stream {
 		f.Buf = append(f.Buf, p...)
 		return len(p), nil
@@ -598,6 +654,7 @@ func (f *File) Write(p []byte) (int, error) {
 func (f *File) WriteString(s string) (int, error) { return f.Write([]byte(s)) }
 
 func (f *File) Close() error {
+	defer guard()()
 	if f.stream {
 		return nil
 	}
@@ -614,6 +671,7 @@ func (f *File) Close() error {
 }
 
 func (f *File) Sync() error {
+	defer guard()()
 	if f.stream {
 		return nil
 	}
@@ -628,6 +686,7 @@ func (f *File) Sync() error {
 }
 
 func (f *File) Chmod(mode FileMode) error {
+	defer guard()()
 	ev, flt := W.begin("chmod", f.name)
 	if flt != nil {
 		return W.fail(ev, "chmod", f.name, errnoOf(flt.Kind))
@@ -642,6 +701,7 @@ func (f *File) Chown(uid, gid int) error { return nil }
 func (f *File) Chdir() error             { return Chdir(f.name) }
 
 func (f *File) Seek(offset int64, whence int) (int64, error) {
+	defer guard()()
 	if f.stream || f.closed {
 		return 0, &PathError{Op: "seek", Path: f.name, Err: syscall.ESPIPE}
 	}
@@ -660,6 +720,7 @@ func (f *File) Seek(offset int64, whence int) (int64, error) {
 }
 
 func (f *File) ReadAt(p []byte, off int64) (int, error) {
+	defer guard()()
 	if f.stream || f.closed || f.n.kind == kDir {
 		return 0, &PathError{Op: "read", Path: f.name, Err: syscall.EINVAL}
 	}
@@ -674,6 +735,7 @@ func (f *File) ReadAt(p []byte, off int64) (int, error) {
 }
 
 func (f *File) WriteAt(p []byte, off int64) (int, error) {
+	defer guard()()
 	save := f.off
 	f.off = int(off)
 	n, err := f.Write(p)
@@ -704,6 +766,7 @@ func (f *File) SetReadDeadline(time.Time) error  { return ErrNoDeadline }
 func (f *File) SetWriteDeadline(time.Time) error { return ErrNoDeadline }
 
 func (f *File) Stat() (FileInfo, error) {
+	defer guard()()
 	if f.stream {
 		return nil, &PathError{Op: "stat", Path: f.name, Err: syscall.EINVAL}
 	}
@@ -713,6 +776,7 @@ func (f *File) Stat() (FileInfo, error) {
 func (f *File) Fd() uintptr { return 3 }
 
 func (f *File) Truncate(size int64) error {
+	defer guard()()
 	ev, _ := W.begin("truncate", f.name)
 	if int(size) < len(f.n.data) {
 		f.n.data = f.n.data[:size]
@@ -722,6 +786,7 @@ func (f *File) Truncate(size int64) error {
 }
 
 func ReadFile(name string) ([]byte, error) {
+	defer guard()()
 	f, err := openFile("open", name, O_RDONLY, 0)
 	if err != nil {
 		return nil, err
@@ -731,6 +796,7 @@ func ReadFile(name string) ([]byte, error) {
 }
 
 func WriteFile(name string, data []byte, perm FileMode) error {
+	defer guard()()
 	f, err := openFile("writefile", name, O_WRONLY|O_CREATE|O_TRUNC, perm)
 	if err != nil {
 		return err
@@ -743,6 +809,7 @@ func WriteFile(name string, data []byte, perm FileMode) error {
 }
 
 func Remove(name string) error {
+	defer guard()()
 	ev, flt := W.begin("remove", name)
 	if flt != nil {
 		return W.fail(ev, "remove", name, errnoOf(flt.Kind))
@@ -762,6 +829,7 @@ func Remove(name string) error {
 }
 
 func RemoveAll(name string) error {
+	defer guard()()
 	ev, flt := W.begin("removeall", name)
 	if flt != nil {
 		return W.fail(ev, "unlinkat", name, errnoOf(flt.Kind))
@@ -780,6 +848,7 @@ func RemoveAll(name string) error {
 }
 
 func Rename(oldp, newp string) error {
+	defer guard()()
 	ev, flt := W.begin("rename", oldp+" -> "+newp)
 	lerr := func(e error) error {
 		le := &LinkError{Op: "rename", Old: oldp, New: newp, Err: e}
@@ -814,6 +883,7 @@ func Rename(oldp, newp string) error {
 }
 
 func Link(oldname, newname string) error {
+	defer guard()()
 	ev, flt := W.begin("link", oldname+" -> "+newname)
 	lerr := func(e error) error {
 		le := &LinkError{Op: "link", Old: oldname, New: newname, Err: e}
@@ -842,6 +912,7 @@ func Link(oldname, newname string) error {
 }
 
 func Readlink(name string) (string, error) {
+	defer guard()()
 	ev, _ := W.begin("readlink", name)
 	_, _, n, err := W.walk(name, false, 0)
 	if err != nil || n == nil {
@@ -854,6 +925,7 @@ func Readlink(name string) (string, error) {
 }
 
 func Truncate(name string, size int64) error {
+	defer guard()()
 	ev, flt := W.begin("truncate", name)
 	if flt != nil {
 		return W.fail(ev, "truncate", name, errnoOf(flt.Kind))
@@ -873,6 +945,7 @@ func Truncate(name string, size int64) error {
 }
 
 func chmeta(op, name string, follow bool) error {
+	defer guard()()
 	ev, flt := W.begin(op, name)
 	if flt != nil {
 		return W.fail(ev, op, name, errnoOf(flt.Kind))
@@ -889,6 +962,7 @@ func Lchown(name string, uid, gid int) error            { return chmeta("chown",
 func Chtimes(name string, atime, mtime time.Time) error { return chmeta("chtimes", name, true) }
 
 func Symlink(oldname, newname string) error {
+	defer guard()()
 	ev, _ := W.begin("symlink", newname)
 	parent, base, n, err := W.walk(newname, false, 0)
 	if err != nil {
@@ -902,6 +976,7 @@ func Symlink(oldname, newname string) error {
 }
 
 func Chmod(name string, mode FileMode) error {
+	defer guard()()
 	ev, flt := W.begin("chmod", name)
 	if flt != nil {
 		return W.fail(ev, "chmod", name, errnoOf(flt.Kind))
@@ -920,6 +995,7 @@ func (d dirEntry) Type() FileMode          { return d.Mode().Type() }
 func (d dirEntry) Info() (FileInfo, error) { return d.fileInfo, nil }
 
 func ReadDir(name string) ([]DirEntry, error) {
+	defer guard()()
 	ev, _ := W.begin("readdir", name)
 	_, _, n, err := W.walk(name, true, 0)
 	if err != nil || n == nil {
@@ -963,6 +1039,7 @@ func UserHomeDir() (string, error)                  { return "/home/sim", nil }
 func Executable() (string, error)                   { return "/usr/bin/emerge", nil }
 
 func MkdirTemp(dir, pattern string) (string, error) {
+	defer guard()()
 	if dir == "" {
 		dir = "/tmp"
 	}
@@ -971,6 +1048,7 @@ func MkdirTemp(dir, pattern string) (string, error) {
 }
 
 func CreateTemp(dir, pattern string) (*File, error) {
+	defer guard()()
 	if dir == "" {
 		dir = "/tmp"
 	}
